@@ -164,6 +164,31 @@ func C07(args []string) {
 		}
 		r.Nontrivial.Add(1)
 	})
+	// run-length family over bytes that include NUL (see C06)
+	var rls [][]byte
+	maxRun := 320
+	if r.Thorough() {
+		maxRun = 2300
+	}
+	for _, a := range []byte{0, 1, ' '} {
+		for _, b := range []byte{0, 1, ' '} {
+			if a != b {
+				for n := 0; n <= maxRun; n++ {
+					one := append(bytes.Repeat([]byte{a}, n), b)
+					rls = append(rls, one, append(append([]byte{}, one...), one...))
+				}
+			}
+		}
+	}
+	core.ParallelFor(len(rls), func(i int) {
+		for _, crc := range []bool{true, false} {
+			total.Add(1)
+			if c, d := c07Judge(rls[i], crc, &identical); c != "" {
+				r.Violation("C07|"+c, core.Trunc(d, 300), c07Case{Family: "runlength", InputHex: hexs(rls[i]), CRC: crc})
+			}
+		}
+		r.Nontrivial.Add(1)
+	})
 	longs := longFamily(r.Thorough())
 	core.ParallelFor(len(longs)*2, func(i int) {
 		li := longs[i/2]
@@ -179,12 +204,12 @@ func C07(args []string) {
 	})
 	r.Evals.Store(total.Load())
 	r.Finish(core.Coverage{
-		"states":                        int64(len(jobs) + len(sjobs) + len(longs)),
+		"states":                        int64(len(jobs) + len(sjobs) + len(rls) + len(longs)),
 		"transitions":                   total.Load() * 2,
 		"traces_validated_against_impl": total.Load() * 2,
 		"rule":                          "one evaluation = one input in both directions (library encoder -> reference decoder incl. header layout; reference encoder -> library decoder + Close); non-trivial = the canonical encoding contains a match",
 		"byte_identical_encodings":      identical.Load(),
-		"short_inputs":                  len(jobs), "structured_inputs": len(sjobs), "long_inputs": len(longs),
+		"short_inputs":                  len(jobs), "runlength_inputs": len(rls), "structured_inputs": len(sjobs), "long_inputs": len(longs),
 	}, []string{
 		"the reference codec is anchored to the five golden .lzh files (decoder reproduces the originals, encoder reproduces the golden bytes) at every setup",
 		"byte equality of the two encoders is recorded (byte_identical_encodings) but is not part of the oracle",
